@@ -165,4 +165,80 @@ theorem fsAt_head_untouched (p : Path) (c : Content) (rest : List Event)
   rw [hu]
   simp [step]
 
+/-! ## Two-run history (`use_existing_chunks`) -/
+
+/-- Further validation epochs do not change the file system, from any starting state. -/
+theorem fsFrom_fit_any_epochs (v : Version) (f : Flags) (rs : List Bool) (fs : FS) :
+    fsFrom fs (fitPhase v f (true :: rs)) = fsFrom fs (fitPhase v f [true]) := by
+  unfold fitPhase
+  split
+  · rw [List.flatMap_cons, fsFrom_append]
+    have h := fsFrom_first_round v f fs
+    rw [fsFrom_more_rounds v f rs _ h.1 h.2]
+    simp
+  · rfl
+
+theorem fsFrom_traceR_any_epochs (f : Flags) (rs : List Bool) (fs : FS) :
+    fsFrom fs (traceR .repaired f (true :: rs)) = fsFrom fs (traceR .repaired f [true]) := by
+  unfold traceR
+  simp only [reuseRaises, Bool.false_eq_true, ↓reduceIte, fsFrom_append]
+  rw [fsFrom_fit_any_epochs]
+
+theorem forall_mem_traceR {P : Event → Prop} (v : Version) (f : Flags) (rounds : List Bool)
+    (h1 : ∀ e ∈ initPhaseR v, P e) (h2 : ∀ e ∈ resavePhase v f, P e)
+    (h3 : reuseRaises v f = true → P .raise)
+    (h4 : ∀ b, ∀ e ∈ ckptRound v f b, P e) (h5 : ∀ e ∈ finallyPhase v f, P e) :
+    ∀ e ∈ traceR v f rounds, P e := by
+  intro e he
+  simp only [traceR, List.mem_append] at he
+  rcases he with (h | h) | h
+  · exact h1 e h
+  · exact h2 e h
+  · split at h
+    · next hr => rcases List.mem_singleton.mp h with rfl; exact h3 hr
+    · rcases List.mem_append.mp h with h | h
+      · unfold fitPhase at h
+        split at h
+        · obtain ⟨b, _, hb⟩ := List.mem_flatMap.mp h
+          exact h4 b e hb
+        · cases h
+      · exact h5 e h
+
+theorem all_blank_traceG (f : Flags) (rounds : List Bool) :
+    ∀ e ∈ traceG .repaired f rounds, e.blank = true := by
+  refine forall_mem_traceG _ f rounds ?_ ?_ ?_ ?_ ?_
+  · flag_cases f
+  · flag_cases f
+  · flag_cases f
+  · intro b; cases b <;> flag_cases f
+  · flag_cases f
+
+theorem all_blank_traceR (f : Flags) (rounds : List Bool) :
+    ∀ e ∈ traceR .repaired f rounds, e.blank = true := by
+  refine forall_mem_traceR _ f rounds ?_ ?_ ?_ ?_ ?_
+  · decide
+  · flag_cases f
+  · intro h; simp [reuseRaises] at h
+  · intro b; cases b <;> flag_cases f
+  · flag_cases f
+
+theorem carry_blank {fs : FS} (h : fs.Blank) : (carry fs).Blank := by
+  intro p c hc
+  cases p <;> simp [carry] at hc <;> exact h _ c hc
+
+/-- What a (repaired) run 1 leaves in the shared chunk directory. -/
+def chunksLeft : FS := fun p =>
+  match p with
+  | .chunksCfg => some (cfg .prepared true false)
+  | .trainChunks | .valChunks => some .data
+  | _ => none
+
+theorem reuseStart_repaired (f1 : Flags) (rs : List Bool) :
+    reuseStart .repaired f1 (true :: rs) = chunksLeft := by
+  unfold reuseStart
+  rw [fsAfter_any_epochs]
+  funext p
+  rcases f1 with ⟨m, fw, w, c, s, d⟩
+  cases m <;> cases fw <;> cases w <;> cases c <;> cases s <;> cases d <;> cases p <;> decide
+
 end SleapVerif.TrainTrace
